@@ -60,7 +60,10 @@ MODES = ['never', 'first', 'second', 'always', 'nancdf']
 
 def _cand(rng, fam, tag, wrap_p=0.5, mode=None):
     if rng.random() < wrap_p or mode:
-        return {'fam': fam, 'form': 'wrap', 'mode': mode or rng.choice(MODES), 'tag': tag}
+        return {'fam': fam, 'form': 'wrap', 'mode': mode or rng.choice(MODES), 'tag': tag,
+                'exc': rng.choice(['RuntimeError', 'RuntimeError', 'NotImplementedError',
+                                   'ValueError', 'KeyError', 'TypeError', 'ZeroDivisionError',
+                                   'FloatingPointError', 'AssertionError', 'OverflowError'])}
     return {'fam': fam, 'form': rng.choice(['class', 'name', 'instance']), 'tag': tag}
 
 
@@ -71,6 +74,12 @@ def _gen_select(rng):
     run = {'kind': 'select', 'cands': cands,
            'data': zoo.rand_uni_dataspec(rng, 50, 400, allow_constant=False),
            'state': rng.randrange(2**31), 'ops': []}
+    if rng.random() < 0.12:
+        # a large sample that none of the parametric candidates describes well: KS p-values
+        # underflow, KS distances stay well separated
+        run['data'].update({'gen': rng.choice(['bimodal', 'binary', 'lognormal']),
+                            'n': rng.choice([3000, 5000])})
+        run['cands'] = [c for c in cands if c['fam'] not in ('kde', 'student', 'beta')] or cands
     if rng.random() < 0.3:
         run['selection_sample_size'] = rng.choice([20, 45])
     return run
@@ -185,7 +194,8 @@ def _make_cand(c):
         if c['fam'] == 'kde':
             return zoo.load_class(name)(None, None, 'silverman'), None
         return zoo.load_class(name)(), None
-    proto = FailingMarginal(base=name, mode=c['mode'], tag=c['tag'])
+    proto = FailingMarginal(base=name, mode=c['mode'], tag=c['tag'],
+                            exc=c.get('exc', 'RuntimeError'))
     return proto, proto._shared
 
 
